@@ -78,6 +78,16 @@ def judge(H):
         elif P["idempotent"] and n != 1:
             pass  # reported above
     # ---- order of first occurrences per task and partition
+    # acks=0: nothing is ever acknowledged, so the only ordering the client controls is the byte order on ONE connection.
+    # Two records that reached the log over different connections (leader change, reconnect) are appended in whatever
+    # order the brokers get to them (a request may sit in a slow broker's queue while leadership moves away and back).
+    link_of = {}
+    if P["acks"] == 0 and not P["idempotent"]:
+        for a in H["arrivals"]:
+            if a.get("error") == 0:
+                for b in a.get("batches") or []:
+                    for u in b["uids"]:
+                        link_of.setdefault(u, a["link"])
     for ti, recs in H["accepted"].items():
         last = {}
         for r in recs:
@@ -88,7 +98,19 @@ def judge(H):
             tp = r["tp"]
             if tp in last:
                 st["order_pairs_checked"] += 1
-                if first < last[tp][0]:
+                if first < last[tp][0] and link_of and link_of.get(r["uid"]) != link_of.get(last[tp][1]) \
+                        and not H.get("active_idle_drops"):
+                    st["acks0_pairs_over_different_connections_not_judged"] = \
+                        st.get("acks0_pairs_over_different_connections_not_judged", 0) + 1
+                elif first < last[tp][0] and link_of and H.get("active_idle_drops"):
+                    # ... unless the client itself gave up a connection it was still writing to
+                    V.append(("first_occurrences_reordered_after_connection_in_use_dropped_as_idle",
+                              f"task {ti}: uid {r['uid']} (issued after {last[tp][1]}) first appears at offset {first} < "
+                              f"{last[tp][0]} in partition {tp}; the client had closed a connection as idle "
+                              f"{H['active_idle_drops'][0]['since_last_write']:.2f}s after its own last write to it",
+                              {"task": ti, "later": r["uid"], "earlier": last[tp][1], "partition": tp,
+                               "active_idle_drops": H["active_idle_drops"][:3]}))
+                elif first < last[tp][0]:
                     V.append(("first_occurrences_reordered", f"task {ti}: uid {r['uid']} (issued after {last[tp][1]}) "
                               f"first appears at offset {first} < {last[tp][0]} in partition {tp}",
                               {"task": ti, "later": r["uid"], "earlier": last[tp][1], "partition": tp}))
@@ -113,6 +135,14 @@ def judge(H):
         if not (0 <= b["base_seq"] <= 2**31 - 1):
             prev = seen.get(key, [])
             wrapped = bool(prev) and prev[-1]["base_seq"] + prev[-1]["count"] > 2**31 - 1
+            if not wrapped:
+                # the batch that crossed 2^31-1 may never have reached a broker (connection refused, leader down): look at
+                # what the client itself put on the wire for this partition before this arrival
+                for iv in H["inflight"]:
+                    sq = (iv.get("seqs") or {}).get(str(a["partition"]))
+                    if sq and iv["t_call"] <= a["t"] + 1e-9 and 0 <= sq[0] and sq[0] + sq[1] > 2**31 - 1:
+                        wrapped = True
+                        break
             V.append(("sequence_number_negative_after_wrap" if wrapped and b["base_seq"] < 0 else "sequence_number_out_of_range",
                       f"partition {a['partition']}: batch arrived with base sequence {b['base_seq']} (Kafka: 0..2^31-1, "
                       f"successor of {prev[-1]['base_seq'] if prev else None}+{prev[-1]['count'] if prev else None} is "
